@@ -21,6 +21,13 @@ def match(p, r):
     return p == r
 
 
+def exp_match(e, r):
+    """a single rule pattern, or the multi-entry spelling t:*|r:r* (exported iff some rule / all entry matches)"""
+    if ":" in e:
+        return any(ent.split(":", 1)[0] in ("r", "a") and match(ent.split(":", 1)[1], r) for ent in e.split("|"))
+    return match(e, r)
+
+
 def _ruletype(d):
     return d["type"] in ("rules", "all", "rules-specific")
 
@@ -69,7 +76,7 @@ def _categories(fl):
                         s = d["from"]
                         if _ruletype(d) and match(d["pat"], r) and act["owns"][s][r]:
                             e = act["exports"][s]
-                            if e == "all" or (e not in ("none", "missing") and match(e, r)):
+                            if e == "all" or (e not in ("none", "missing") and exp_match(e, r)):
                                 direct = True
                     cats.add("other" if direct else "b")
                 else:
@@ -99,6 +106,9 @@ def run(ctx):
     if not q:
         c.tlc_l1(ctx, "Modules.tla", "MC_Modules_dev.cfg", expect_violation="NoDanglingDecl", workers=2)
     M = "Modules.tla"
+    # multi-entry export lists with overlapping patterns of different item types; import graphs over four modules
+    c.graph_leg(ctx, M, "modules", "Gen_Modules_exp.cfg", CFG_RE, 300 if q else 3000, 6, 0, maxfail=5000000)
+    c.graph_leg(ctx, M, "modules", "Gen_Modules_imp4.cfg", CFG_CYC4, 300 if q else 3000, 6, 0, maxfail=5000000)
     if q:
         c.graph_leg(ctx, M, "modules", "Gen_Modules.cfg", CFG, 300, 7, 2, "Sim_Modules.cfg", 150, 8, maxfail=5000000)
         c.graph_leg(ctx, M, "modules", "Gen_Modules_re2.cfg", CFG_RE, 300, 7, 2, "Sim_Modules_re.cfg", 150, 8, maxfail=5000000)
